@@ -82,3 +82,11 @@ From Ahb Require Import Corr.Eval Gen.Gen_rccb Proofs.C04_gen.
 Theorem C04_transformer_callbacks_are_the_regenerated_table : forallb cb_row_ok cb_rows = true /\ length cb_rows = 3600.
 Proof. exact (conj cb_rows_ok cb_rows_complete). Qed.
 Print Assumptions C04_transformer_callbacks_are_the_regenerated_table.
+
+(* ---- ... and requirement_constraint_evaluation end to end (node builder, transformer, mapping of the root node to the reported outcome / collected
+   expression / hints) on a small scope enumerated completely: all trees with one or two leaves over two requirement constraints, a hint and a format
+   constraint x the four operators x all assignments (Gen/Gen_rctail.v) report what rc_evaluation reports. *)
+From Ahb Require Import Gen.Gen_rctail Proofs.C04_tail.
+Theorem C04_requirement_constraint_evaluation_is_the_regenerated_table : forallb rc_check rc_rows = true /\ 200 <= length rc_rows.
+Proof. exact (conj rc_rows_ok rc_rows_nonempty). Qed.
+Print Assumptions C04_requirement_constraint_evaluation_is_the_regenerated_table.
